@@ -382,7 +382,7 @@ var corePayloads = []string{
 
 // candidates(v0) = the payloads alone and combined with the fixture's own (valid) value
 // lite: only the placements alone / append / prepend / after each token (secondary contexts in the quick tier)
-func candidates(v0 string, payloads []string, thorough, lite bool) []struct{ val, placement string; pid int } {
+func candidates(v0 string, payloads []string, thorough, lite bool, bases []string, bpayloads []string) []struct{ val, placement string; pid int } {
 	type c = struct {
 		val, placement string
 		pid            int
@@ -420,7 +420,52 @@ func candidates(v0 string, payloads []string, thorough, lite bool) []struct{ val
 			}
 		}
 	}
+	// grammar-aware construction: the boundary payloads at every grammar boundary (each side of every punctuation
+	// byte) of the fixture's value and of the other ACCEPTED shapes of this field (bases[1:]), so that a dangerous
+	// byte can ride on a syntactic feature the field's parser tolerates (after % @ ? : [ ~ * = ...)
+	for bi, b := range bases {
+		for i, p := range bpayloads {
+			if bi > 0 {
+				add(b+p, "shape-append", i)
+				add(p+b, "shape-prepend", i)
+			}
+			for _, k := range boundaries(b) {
+				add(b[:k]+p+b[k:], "boundary", i)
+			}
+		}
+	}
 	return out
+}
+
+func isAlnum(c byte) bool {
+	return (c >= '0' && c <= '9') || (c >= 'a' && c <= 'z') || (c >= 'A' && c <= 'Z')
+}
+
+// boundaries: the positions 0 < k < len(v) next to a punctuation byte (at most the first 8 and the last 4)
+func boundaries(v string) []int {
+	var out []int
+	for k := 1; k < len(v); k++ {
+		if !isAlnum(v[k-1]) || !isAlnum(v[k]) {
+			out = append(out, k)
+		}
+	}
+	if len(out) > 12 {
+		out = append(append([]int(nil), out[:8]...), out[len(out)-4:]...)
+	}
+	return out
+}
+
+// shapePool: values of different grammatical shapes.  For every attacked leaf the REAL validator says which of them
+// the field accepts; the accepted ones (unless the field accepts nearly everything: free text) become additional base
+// values for the grammar-aware construction.
+var shapePool = [][]string{
+	{"10.0.0.1", "10.0.0.0/8", "2001:db8::1", "2001:db8::/32", "fe80::1%eth0", "::ffff:1.2.3.4", "[::1]", "fe80::1%0"},
+	{"/p", "=/p", "~ ^/p", "~* ^/p", "~^/p", "~*^/p", "~/p", "~*/p"},
+	{"https://user:pw@h.example.com:8443/p?q=1#frag", "http://[::1]:8080/p", "https://h.example.com", "h.example.com:80", "unix:/tmp/s.sock"},
+	{"10", "8k", "1m", "30s", "1h 30m", "5ms", "max", "10r/s"},
+	{"A,B", "A: b,C: d", "a=b", "a=b c=d", "k=v;k2=v2"},
+	{"$x", "${x}", "$1", "${x}y${z}", "hash $x consistent", "hash ${x}"},
+	{"on", "off", "true", "x", "a b", "a.b-c_d", "*.example.com", "a/b"},
 }
 
 // neutralize replaces every byte that can be structural for the NGINX lexer (or is not plain
@@ -511,6 +556,7 @@ type FieldStat struct {
 	Suspect     int `json:"suspect"`
 	Arity       int `json:"arity"`
 	GenErrors   int `json:"gen_errors"`
+	ShapesAccepted int `json:"shapes_accepted"` // other grammatical shapes the real validator accepts for the field (used as bases)
 	Raw         int `json:"raw_reach"` // accepted candidates whose value appears verbatim in the rendering (and not in the base rendering)
 }
 
@@ -922,6 +968,7 @@ func runJob(e *env, fi int, fx Fixture, plus bool, rng *vh.Rng, thorough bool, b
 			}
 			payloads := corePayloads
 			lite := false
+			wantShapes := thorough
 			if thorough && w.Secondary {
 				// a fixture that repeats fields under other context selectors: the single bytes and classic combinations
 				payloads = corePayloads[:48]
@@ -940,6 +987,7 @@ func runJob(e *env, fi int, fx Fixture, plus bool, rng *vh.Rng, thorough bool, b
 				fieldInstances[ck]++
 				switch {
 				case fieldInstances[nf] == 1 && !w.Secondary:
+					wantShapes = true
 					payloads = append([]string(nil), corePayloads[:41]...)
 					for _, p := range corePayloads[41:] {
 						if lr.Chance(1, 6) {
@@ -951,6 +999,7 @@ func runJob(e *env, fi int, fx Fixture, plus bool, rng *vh.Rng, thorough bool, b
 					// upstream type, path-regex value, ...): another validator or rendering site may apply
 					payloads = contextPayloads
 					lite = true
+					wantShapes = true
 				default:
 					payloads = nil
 					for k := 0; k < 5; k++ {
@@ -966,8 +1015,39 @@ func runJob(e *env, fi int, fx Fixture, plus bool, rng *vh.Rng, thorough bool, b
 				ctxSeen[normField(l.Field)+"|"+lctx] = true
 				sum.Contexts[lctx]++
 			}
+			// other accepted shapes of this field (first instance of the field, or of the field in a new context)
+			bases := []string{l.Value}
+			var bpayloads []string
+			if wantShapes {
+				bpayloads = contextPayloads
+				var acc []string
+				n, nacc := 0, 0
+				for _, fam := range shapePool {
+					taken := 0
+					for _, sh := range fam {
+						n++
+						if sh == l.Value {
+							continue
+						}
+						if w2 := mutate(w, oi, l.Path, sh); w2 != nil && crdAdmits(kindName(o), l.Path, sh) == "" && e.validate(w2, oi) == "" {
+							nacc++
+							if taken < 3 {
+								acc = append(acc, sh)
+							}
+							taken++
+						}
+					}
+				}
+				if nacc*2 <= n || len(acc) <= 6 {
+					bases = append(bases, acc...)
+				} else {
+					// the field accepts most shapes: free text, its own value is as good a base as any
+					bases = append(bases, acc[:3]...)
+				}
+				st.ShapesAccepted += len(bases) - 1
+			}
 			hcache := map[string]*Render{}
-			for _, cd := range candidates(l.Value, payloads, thorough, lite) {
+			for _, cd := range candidates(l.Value, payloads, thorough, lite, bases, bpayloads) {
 				st.Candidates++
 				c, class := e.judge(w, &base, oi, l, cd.val, hcache)
 				c.Fixture, c.Placement, c.PayloadID, c.Ctx = fx.Name, cd.placement, cd.pid, lctx
@@ -1004,8 +1084,8 @@ func runJob(e *env, fi int, fx Fixture, plus bool, rng *vh.Rng, thorough bool, b
 					switch c.Obs.Go {
 					case 2:
 						st.Suspect++
-						if perFieldSuspects[l.Field] < suspectCap(thorough) {
-							perFieldSuspects[l.Field]++
+						if perFieldSuspects[capKey(c)] < suspectCap(thorough) {
+							perFieldSuspects[capKey(c)]++
 							res.suspects = append(res.suspects, c)
 						}
 					case 1:
@@ -1153,16 +1233,17 @@ func main() {
 				t.Suspect += st.Suspect
 				t.Arity += st.Arity
 				t.GenErrors += st.GenErrors
+				t.ShapesAccepted += st.ShapesAccepted
 				t.Raw += st.Raw
 			}
 			errs = append(errs, r.errs...)
 			for _, cs := range r.suspects {
 				hk := cs.Field + "|" + fmt.Sprint(cs.Obs.Files) + "|" + fmt.Sprint(cs.Obs.HFiles)
-				if dedupe[hk] || perField[cs.Field] >= suspectCap(thorough) {
+				if dedupe[hk] || perField[capKey(cs)] >= suspectCap(thorough) {
 					continue
 				}
 				dedupe[hk] = true
-				perField[cs.Field]++
+				perField[capKey(cs)]++
 				suspects = append(suspects, cs)
 			}
 			for _, cs := range r.normal {
@@ -1317,6 +1398,16 @@ func normField(f string) string {
 	return f
 }
 
+// capKey: suspects are capped per field AND context AND (for a route path) kind of the injected path, so that the
+// witnesses of a known finding cannot crowd out a different defect on the same field
+func capKey(c Case) string {
+	k := c.Field + "|" + c.Ctx
+	if strings.HasSuffix(c.Field, "outes[].path") {
+		k += "|" + pathKind(stringOf(c.Value))
+	}
+	return k
+}
+
 // suspectCap: how many pre-screen suspects per field and (fixture, edition) are sent to Rocq
 func suspectCap(thorough bool) int {
 	if thorough {
@@ -1404,16 +1495,35 @@ func leafContext(o Obj, l Leaf) string {
 		} else if len(r.Matches) > 0 {
 			loc = "top+m"
 		}
-		up := "-"
-		if m[4] != "" && act != nil {
+		up, ak := "-", "-"
+		if m[4] == "" && m[2] == "" && m[3] == "" {
+			// a leaf of the route itself (its path, ...): what the route does
 			switch {
-			case act.Pass != "":
-				up = upType(ups, act.Pass)
-			case act.Proxy != nil:
-				up = upType(ups, act.Proxy.Upstream)
+			case r.Route != "":
+				ak = "route"
+			case len(r.Splits) > 0:
+				ak = "splits"
 			}
 		}
-		return kind + ":" + pathKind(r.Path) + ":" + loc + ":up=" + up
+		if act != nil && (m[4] != "" || ak == "-") {
+			switch {
+			case act.Pass != "":
+				ak = "pass"
+				if m[4] != "" {
+					up = upType(ups, act.Pass)
+				}
+			case act.Proxy != nil:
+				ak = "proxy"
+				if m[4] != "" {
+					up = upType(ups, act.Proxy.Upstream)
+				}
+			case act.Redirect != nil:
+				ak = "redirect"
+			case act.Return != nil:
+				ak = "return"
+			}
+		}
+		return kind + ":" + pathKind(r.Path) + ":" + loc + ":up=" + up + ":act=" + ak
 	}
 	switch x := o.Val.(type) {
 	case *conf_v1.VirtualServer:
